@@ -96,10 +96,25 @@ def run_case(case):
             if not cands:
                 return {"status": "skip", "why": "no line-local rule reports on the stabilised input"}
             rng = random.Random(harness.stable_hash("c20", fixrun.case_name(case), case.get("salt", 0)))
-            o = rng.choice(sorted(cands, key=lambda x: x.unique_id))
+            cands = sorted(cands, key=lambda x: x.unique_id)
+            # hostile choice: prefer rules that emit their violations out of line order or several per line
+            odd = [x for x in cands if [v.get_line_number() for v in x.violations] != sorted(set(v.get_line_number() for v in x.violations))]
+            o = rng.choice(odd) if odd and rng.random() < 0.6 else rng.choice(cands)
             rid = o.unique_id
-            rep = sorted(set(v.get_line_number() for v in o.violations))
-            L = sorted(rng.sample(rep, max(1, len(rep) // 2))) if len(rep) > 1 else rep
+            emitted = [v.get_line_number() for v in o.violations]
+            rep = sorted(set(emitted))
+            how = rng.randrange(4)
+            if len(rep) < 2:
+                L = rep
+            elif how == 0:
+                L = [rep[0]]  # only the smallest line
+            elif how == 1:
+                L = sorted(set(emitted[len(emitted) // 2 :]))  # what the rule emitted last
+            elif how == 2:
+                L = rep[:-1]  # all but the largest line
+            else:
+                L = sorted(rng.sample(rep, max(1, len(rep) // 2)))
+            out["emission_out_of_order"] = emitted != sorted(emitted)
             # reference: full fix of r alone
             fr, rr = vsgapi.build(blines, a, oConfig)
             rr.fix(7, None, {"fix": {"rule": {rid: ["all"]}}})
@@ -168,7 +183,7 @@ def _cli_empty(case, text):
 def _cases(tier, seed):
     rng = random.Random(seed)
     base = fixrun.universe(tier, seed, 0, 0, full=True, gen=False)
-    n = {"all": 250, "empty": 150, "subset": 500} if tier == "quick" else {"all": 2500, "empty": 1000, "subset": 5000}
+    n = {"all": 250, "empty": 150, "subset": 900} if tier == "quick" else {"all": 2500, "empty": 1000, "subset": 5000}
     cases = []
     for mode in ("all", "empty", "subset"):
         for c in harness.sample(rng, base, n[mode]):
